@@ -149,6 +149,11 @@ func (p *Parser) parseString(data string) error {
 	if inBackticks {
 		return errors.New("backticks left open")
 	}
+	if linebuffer.Len() > 0 {
+		// The last line ended with a continuation character and nothing
+		// follows: what has been collected is the whole directive.
+		return p.evaluateLine(linebuffer.String())
+	}
 	return nil
 }
 
